@@ -35,6 +35,7 @@ class Config:
         self.loss = False
         self.reject_all = False     # quick sampler: a post-selection that no output passes (reading the distribution must raise)
         self.rules = []             # quick sampler: rules of a PostSelection object [(mode, allowed photon numbers)]
+        self.closure = None         # quick sampler: post-selection predicate made by ONE factory, capturing this mode number (sibling closures share their code object)
         self.threshold = 1e-9       # lw.settings.sampler_probability_threshold (package-wide setting used when the distribution is computed)
 
     @property
@@ -79,11 +80,18 @@ STEPS = {
     # reconfigurations after which reading must FAIL (on a fresh object too): a failed recalculation must not leave the cache looking up to date
     "global-threshold": lambda cfg: setattr(cfg, "threshold", 5e-3 if cfg.threshold == 1e-9 else 1e-9),
     "bad-input": lambda cfg: setattr(cfg, "input", [1, 0, 1, 1, 0]),
-    "reject-all": lambda cfg: setattr(cfg, "reject_all", not cfg.reject_all),
+    "reject-all": lambda cfg: (setattr(cfg, "reject_all", not cfg.reject_all), setattr(cfg, "closure", None)),
+    # a predicate from the same factory as the previous one, capturing another value: same code object, different function
+    "ps-closure": lambda cfg: (setattr(cfg, "closure", 0 if cfg.closure is None else 1 - cfg.closure), setattr(cfg, "rules", []), setattr(cfg, "reject_all", False)),
     # post-selection given as a PostSelection OBJECT: assigned, then extended IN PLACE with another rule (a change of post-selection like any other)
-    "ps-assign": lambda cfg: (setattr(cfg, "rules", [(0, (0, 1))]), setattr(cfg, "reject_all", False)),
-    "ps-add-rule": lambda cfg: (setattr(cfg, "rules", cfg.rules + [(1, (0, 1))]) if (1, (0, 1)) not in cfg.rules else None, setattr(cfg, "reject_all", False)),
+    "ps-assign": lambda cfg: (setattr(cfg, "rules", [(0, (0, 1))]), setattr(cfg, "reject_all", False), setattr(cfg, "closure", None)),
+    "ps-add-rule": lambda cfg: (setattr(cfg, "rules", cfg.rules + [(1, (0, 1))]) if (1, (0, 1)) not in cfg.rules else None, setattr(cfg, "reject_all", False), setattr(cfg, "closure", None)),
 }
+
+
+def closure_predicate(m):
+    """post-selection predicates made by one factory: every one of them has the same code object, they differ in the captured mode"""
+    return lambda s: s[m] == 0
 
 
 def build_ps(rules):
@@ -117,6 +125,9 @@ def apply_live(obj, cfg, step, kind):
     elif step == "reject-all":
         HELD.pop(id(obj), None)
         obj.post_select = (lambda s: False) if cfg.reject_all else ((lambda s: True) if not cfg.rules else build_ps(cfg.rules))
+    elif step == "ps-closure":
+        HELD.pop(id(obj), None)
+        obj.post_select = closure_predicate(cfg.closure)
     elif step == "ps-assign":
         HELD[id(obj)] = build_ps(cfg.rules)     # the user keeps the PostSelection object that is handed over
         obj.post_select = HELD[id(obj)]
@@ -149,7 +160,8 @@ def fresh(cfg, kind):
     if kind == "sampler":
         return emulator.Sampler(c, lw.State(cfg.input), source=emulator.Source(brightness=cfg.brightness, purity=cfg.purity, indistinguishability=cfg.indist),
                                 backend=cfg.backend)
-    return emulator.QuickSampler(c, lw.State(cfg.input), **({"post_select": (lambda s: False)} if cfg.reject_all else ({"post_select": build_ps(cfg.rules)} if cfg.rules else {})))
+    return emulator.QuickSampler(c, lw.State(cfg.input), **({"post_select": (lambda s: False)} if cfg.reject_all else ({"post_select": build_ps(cfg.rules)} if cfg.rules else
+                                                                  ({"post_select": closure_predicate(cfg.closure)} if cfg.closure is not None else {}))))
 
 
 def dist_equal(a, b):
@@ -270,11 +282,12 @@ def _run_history(kind, steps, first_read):
 
 
 def histories(tier, kind):
-    steps = ([s_ for s_ in STEPS if s_ not in ("reject-all", "ps-assign", "ps-add-rule")] if kind == "sampler" else
-             ["new-unitary", "edit-circuit", "param", "param-tiny", "input", "herald-photons", "herald-mode", "herald-both", "herald-swap", "loss", "global-threshold", "bad-input", "reject-all", "ps-assign", "ps-add-rule"])
+    steps = ([s_ for s_ in STEPS if s_ not in ("reject-all", "ps-assign", "ps-add-rule", "ps-closure")] if kind == "sampler" else
+             ["new-unitary", "edit-circuit", "param", "param-tiny", "input", "herald-photons", "herald-mode", "herald-both", "herald-swap", "loss", "global-threshold", "bad-input", "reject-all", "ps-assign", "ps-add-rule", "ps-closure"])
     out = [()]
     out += [(s,) for s in steps]
     out += list(itertools.permutations(steps, 2))
+    out += [(s, s) for s in steps]            # the same kind of change twice in a row (second parameter update, sibling closure, herald moved again ...)
     if tier == "thorough":
         out += list(itertools.permutations(steps, 3))
     return out
@@ -403,6 +416,43 @@ def _ps():
     return p
 
 
+def bystanders():
+    """objects created with default settings do not share configuration objects: editing one object's source / detector / post-selection in place
+    leaves every other object (created before or after) reporting the distribution of ITS settings"""
+    from lightworks import emulator
+    import lightworks as lw
+    fails = []
+
+    def circ():
+        c = lw.Circuit(3)
+        c.bs(0)
+        c.bs(1, reflectivity=0.3)
+        return c
+    ref = dict(emulator.Sampler(circ(), lw.State([1, 1, 0]), source=emulator.Source(), detector=emulator.Detector()).probability_distribution)
+    for edit_label, edit in (("source.brightness = 0.4", lambda a: setattr(a.source, "brightness", 0.4)),
+                             ("source.indistinguishability = 0.2", lambda a: setattr(a.source, "indistinguishability", 0.2)),
+                             ("detector.photon_counting = False", lambda a: setattr(a.detector, "photon_counting", False)),
+                             ("detector.efficiency = 0.5", lambda a: setattr(a.detector, "efficiency", 0.5))):
+        a = emulator.Sampler(circ(), lw.State([1, 1, 0]))
+        b = emulator.Sampler(circ(), lw.State([1, 1, 0]))
+        b.probability_distribution      # noqa: B018
+        try:
+            edit(a)
+            a.probability_distribution  # noqa: B018
+        except Exception as e:  # noqa: BLE001
+            fails.append(f"in-place edit {edit_label} on a default-constructed Sampler raised {type(e).__name__}: {e}")
+            continue
+        later = emulator.Sampler(circ(), lw.State([1, 1, 0]))
+        for who, obj in (("a Sampler created before the edit", b), ("a Sampler created after the edit", later)):
+            m = dist_equal(dict(obj.probability_distribution), ref)
+            ok_det = obj.detector.photon_counting is True and obj.detector.efficiency == 1
+            r1 = dict(obj.sample_N_inputs(50, seed=3))
+            r2 = dict(emulator.Sampler(circ(), lw.State([1, 1, 0]), source=emulator.Source(), detector=emulator.Detector()).sample_N_inputs(50, seed=3))
+            if m or not ok_det or {tuple(k.s): v for k, v in r1.items()} != {tuple(k.s): v for k, v in r2.items()}:
+                fails.append(f"after `{edit_label}` on ANOTHER default-constructed Sampler, {who} no longer behaves like an ideal-source / ideal-detector Sampler ({m or 'detector settings / samples differ'})")
+    return fails
+
+
 def unit(tier="quick", seed=0, kind="sampler", shard=0, nshards=1, only=None):
     """only: restrict the histories to sequences of these step kinds (a sub-family, e.g. parameter updates for C04)"""
     n, fails, sample = 0, [], None
@@ -453,10 +503,25 @@ def unit(tier="quick", seed=0, kind="sampler", shard=0, nshards=1, only=None):
         o["model"] = dict(case=fails[0][0], observed=fails[0][1], n_failing=len(fails))
         o["replayed"] = f"{len(fails)} of {n} histories differ from a fresh object; first {fails[0][0]}: {fails[0][1]}"
         o["replay_spec"] = dict(module="vf.tasks.t_history", func="replay", args=json.loads(fails[0][0]))
-    return dict(status="ok", obligations=[o], summary=f"{kind} shard {shard}/{nshards}: {n} histories")
+    obs = [o]
+    if kind == "sampler" and shard == 0 and only is None:
+        bf = bystanders()
+        ob = dict(name="lightworks/emulator/simulation/sampler.py:Sampler#bnd.objects-independent", kind="bnd", cases=8, result="bounded-fail" if bf else "bounded-pass",
+                  backend="native", ms=0, sample="a = Sampler(c, s); b = Sampler(c, s); a.source.brightness = 0.4; b.probability_distribution",
+                  note="default-constructed Samplers share no source / detector object: an in-place edit on one leaves the others (earlier and later ones) ideal")
+        if bf:
+            ob["failing_cases"] = bf
+            ob["model"] = dict(observed=bf[0], n_failing=len(bf))
+            ob["replayed"] = "; ".join(bf[:2])
+            ob["replay_spec"] = dict(module="vf.tasks.t_history", func="replay", args=["bystanders", None, None])
+        obs.append(ob)
+    return dict(status="ok", obligations=obs, summary=f"{kind} shard {shard}/{nshards}: {n} histories")
 
 
 def replay(kind, steps, first_read):
+    if kind == "bystanders":
+        f = bystanders()
+        return "; ".join(f) if f else None
     if kind == "analyzer":
         f = analyzer_histories()
         return "; ".join(f) if f else None
